@@ -115,7 +115,7 @@ func main() {
 		debug.SetMaxStack(256 << 20)
 		if cp := os.Getenv("VERIF_BREADCRUMB"); cp != "" {
 			crumbFile, _ = os.Create(cp)
-			startWatchdog(120 * time.Second)
+			startWatchdog(90 * time.Second)
 		}
 		c := &ctx{prop: *prop, tier: *tier, seed: *seed, root: *root, scale: *scale,
 			corpus: filepath.Join(*root, "corpus", *prop), res: newResult(*prop, *tier, *seed)}
